@@ -37,6 +37,15 @@ var solvers = []solverSpec{
 	{"z3-4.8.12", func(f string, t int) []string { return []string{"/usr/bin/z3", fmt.Sprintf("-T:%d", t), f} }},
 }
 
+var seedVariants = []solverSpec{
+	{"z3-5.1.0/seed1", func(f string, t int) []string {
+		return []string{"z3-new", fmt.Sprintf("-T:%d", t), "smt.random_seed=1", f}
+	}},
+	{"z3-5.1.0/seed2-nombqi", func(f string, t int) []string {
+		return []string{"z3-new", fmt.Sprintf("-T:%d", t), "smt.random_seed=2", "smt.mbqi=false", f}
+	}},
+}
+
 var cacheDir = "/verif/out/cache"
 var cacheMu sync.Mutex
 var solverTime = map[string]float64{}
@@ -133,8 +142,14 @@ func solveOpt(query string, timeoutS int, busyRetry bool) SolveResult {
 			st, out, name string
 			secs          float64
 		}
-		ch := make(chan ans, len(solvers))
-		for _, sp := range solvers {
+		// the second pass (busyRetry == false) also races z3 with other random seeds: a few obligations are decided in
+		// seconds with any seed but the default one
+		pool := solvers
+		if !busyRetry {
+			pool = append(append([]solverSpec{}, solvers...), seedVariants...)
+		}
+		ch := make(chan ans, len(pool))
+		for _, sp := range pool {
 			go func(sp solverSpec) {
 				s, o, t := runOne(ctx, sp, tmp.Name(), timeoutS)
 				ch <- ans{s, o, sp.name, t}
@@ -142,7 +157,7 @@ func solveOpt(query string, timeoutS int, busyRetry bool) SolveResult {
 		}
 		nErr, decided := 0, false
 		var errRes SolveResult
-		for i := 0; i < len(solvers); i++ {
+		for i := 0; i < len(pool); i++ {
 			a := <-ch
 			addSolverTime(a.name, a.secs)
 			if a.st == "error" {
@@ -160,7 +175,7 @@ func solveOpt(query string, timeoutS int, busyRetry bool) SolveResult {
 			res = SolveResult{Status: "unknown", Solver: a.name, Secs: a.secs, Output: a.out}
 		}
 		cancel()
-		if !decided && nErr == len(solvers) {
+		if !decided && nErr == len(pool) {
 			res = errRes
 		}
 		if res.Status == "unknown" && busyRetry && systemBusy() {
